@@ -537,6 +537,21 @@ async fn h_pf(rqctx: RequestContext<Ctx>, _p: Path<PF>) -> HR<HttpResponseOk<boo
     Ok(HttpResponseOk(bool::mk(&mut r)))
 }
 
+/// an Option and a defaulted field as path variables (always bound)
+#[derive(Deserialize, JsonSchema)]
+pub struct PO {
+    pub v: Option<u32>,
+    #[serde(default)]
+    pub w: u8,
+}
+pub fn spec_po() -> String {
+    spec(&[lf("v", &st_int(false, 32), OPT, None), lf("w", &st_int(false, 8), DEF_INT, None)])
+}
+async fn h_po(rqctx: RequestContext<Ctx>, p: Path<PO>) -> HR<HttpResponseOk<Option<u32>>> {
+    let _ = enter(&rqctx);
+    Ok(HttpResponseOk(p.into_inner().v))
+}
+
 /// flattened integer leaf in a path struct
 #[derive(Deserialize, JsonSchema)]
 pub struct InPI {
@@ -949,6 +964,7 @@ pub fn build_api() -> (ApiDescription<Ctx>, Ctx, BTreeMap<String, OpInfo>) {
     reg!("pm", h_pm, Method::GET, JSON, "/pm/{a}/lit/{b-b}/{c}/{d}", info(OK_J).p(spec_pm()));
     reg!("pf", h_pf, Method::GET, JSON, "/pf/{a}/{b}/{c}", info(OK_J).p(spec_pf()));
     reg!("pfi", h_pfi, Method::GET, JSON, "/pfi/{n}/{b}", info(OK_J).p(spec_pfi()));
+    reg!("po", h_po, Method::GET, JSON, "/po/{v}/{w}", info(OK_J).p(spec_po()));
     reg!("ba", h_ba, Method::PUT, JSON, "/b/a", info(OK_J).b(BX_JSON));
     reg!("be", h_be, Method::POST, JSON, "/b/e", info(CREATED_J).b(BX_JSON));
     reg!("bv", h_bv, Method::PUT, JSON, "/b/v", info(OK_J).b(BX_JSON));
